@@ -304,6 +304,43 @@ theorem unstarted_commit_rejected_by_store (cfg : Cfg) (ops : List Op) (hl : cfg
 example : (run (init { layer := true }) [.set [1] [2], .flush true 0 { res := .ok, applied := 0 },
     .flushDone { res := .err, applied := 0 }]).ttl = .uninit := by decide
 
+/-! ## the commit point: what Commit tells the caller never contradicts what happened to the primary -/
+
+/-- for EVERY sequence of things that can happen to the successive Commit requests for the primary (executed with the
+    answer lost, lost before execution, refused with a definite key error, executed and answered; retried any number of
+    times): a definite error (`other`) is only reported when the primary is NOT committed in the store, success (`nil`)
+    only when it IS committed, and `undetermined` only when the answer of every attempt was lost — in which case the
+    store may or may not hold the commit.  (Was false before /repo 326f0f5: `commitFlushedMutations` returned the raw
+    error, a definite-looking failure for a committed transaction.) -/
+theorem commit_answer_matches_outcome (attempts : List Attempt) :
+    answerMatchesOutcome (pipelinedAnswer (primaryCommit attempts false).2) (primaryCommit attempts false).1 = true ∧
+    (pipelinedAnswer (primaryCommit attempts false).2 = .other → (primaryCommit attempts false).1 = false) ∧
+    (pipelinedAnswer (primaryCommit attempts false).2 = .nil → (primaryCommit attempts false).1 = true) ∧
+    (pipelinedAnswer (primaryCommit attempts false).2 = .undetermined →
+      ∀ a ∈ attempts, a = .execLost ∨ a = .lost) := by
+  have h1 := primaryCommit_definite_err attempts false
+  have h2 := primaryCommit_ok attempts false
+  have h3 := primaryCommit_undetermined attempts false
+  cases hr : (primaryCommit attempts false).2 with
+  | ok =>
+    rw [hr] at h2
+    simp [pipelinedAnswer, answerMatchesOutcome, h2 rfl]
+  | err u =>
+    cases u with
+    | true =>
+      rw [hr] at h3
+      simp only [pipelinedAnswer, answerMatchesOutcome]
+      exact ⟨by simp, by simp, by simp, fun _ => h3 rfl⟩
+    | false =>
+      rw [hr] at h1
+      simp [pipelinedAnswer, answerMatchesOutcome, h1 rfl]
+
+/-- non-vacuity: all three answers occur, and the executed-answer-lost case is the committed-but-undetermined one -/
+example : pipelinedAnswer (primaryCommit [.execLost] false).2 = .undetermined ∧ (primaryCommit [.execLost] false).1 = true ∧
+    pipelinedAnswer (primaryCommit [.lost, .keyErr] false).2 = .other ∧ (primaryCommit [.lost, .keyErr] false).1 = false ∧
+    pipelinedAnswer (primaryCommit [.execLost, .keyErr] false).2 = .nil ∧ (primaryCommit [.execLost, .keyErr] false).1 = true := by
+  decide
+
 /-! ## the range handed to the range task -/
 
 example : validBatches [[[0x61], [0x63]], [[0x62]]] := by
